@@ -63,6 +63,8 @@ def shards(tier, seed):
         out.append({"kind": "responses", "sub": i, "n": c})
     for i in range(nlim):
         out.append({"kind": "limits", "sub": i, "n": d})
+    for i in range(2 if tier == "quick" else 8):
+        out.append({"kind": "compressed", "sub": i, "n": 40 if tier == "quick" else 400})
     ncls = 4 if tier == "quick" else 16
     for i in range(ncls):
         out.append({"kind": "classes", "sub": i, "parts": ncls, "stride": 6 if tier == "quick" else 1})
@@ -84,6 +86,7 @@ def run_once(kind, S, cfg, cuts, consume=True, sig_cb=None):
         max_headers=mh,
         read_until_eof=cfg.get("read_until_eof", False),
         response_method=cfg.get("method", "GET"),
+        auto_decompress=cfg.get("auto_decompress", False),
         consume=consume,
     )
     run.run(S, cuts, eof=True, sig_cb=sig_cb)
@@ -239,7 +242,7 @@ def steer_clear_of_close(S: bytes) -> bool:
 
 def run_shard(spec, rec):
     kind = spec["kind"]
-    seed = spec["seed"] * 1000003 + spec["sub"] * 7919 + {"pairs": 11, "singles": 12, "responses": 13, "limits": 14, "classes": 15}[kind]
+    seed = spec["seed"] * 1000003 + spec["sub"] * 7919 + {"pairs": 11, "singles": 12, "responses": 13, "limits": 14, "classes": 15, "compressed": 16}[kind]
     rng = random.Random(seed)
     if kind in ("pairs", "singles"):
         i = 0
@@ -280,6 +283,40 @@ def run_shard(spec, rec):
             canon, found = explore("response", S, cfg, rec, cls, mode, rng, "main")
             if i % 11 == 0:
                 rec.sample({"kind": "response", "class": cls, "stream": S[:200].decode("latin1"), "cfg": cfg, "canonical": canon[0][:2], "violations": list(found)})
+    elif kind == "compressed":
+        import gzip
+        import zlib
+
+        for i in range(spec["n"]):
+            plain = bytes(rng.choice(b"abcdefgh \r\n") for _ in range(rng.choice([0, 1, 40, 300])))
+            coding = rng.choice(["gzip", "deflate", "deflate-raw", "gzip-2members"])
+            if coding == "gzip":
+                body, token = gzip.compress(plain), b"gzip"
+            elif coding == "gzip-2members":
+                body, token = gzip.compress(plain[: len(plain) // 2]) + gzip.compress(plain[len(plain) // 2 :]), b"gzip"
+            elif coding == "deflate":
+                body, token = zlib.compress(plain), b"deflate"
+            else:
+                c = zlib.compressobj(wbits=-15)
+                body, token = c.compress(plain) + c.flush(), b"deflate"
+            if rng.random() < 0.2 and body:
+                body = body[: rng.randrange(len(body))]  # truncated
+            is_req = rng.random() < 0.5
+            if rng.random() < 0.6:
+                k = max(1, len(body) // rng.choice([1, 2, 3]))
+                framed = b"".join(b"%x\r\n%s\r\n" % (len(body[j : j + k]), body[j : j + k]) for j in range(0, len(body), k)) + b"0\r\n\r\n"
+                fr = b"Transfer-Encoding: chunked\r\n"
+            else:
+                framed, fr = body, b"Content-Length: %d\r\n" % len(body)
+            head = (b"POST /z HTTP/1.1\r\nHost: h\r\n" if is_req else b"HTTP/1.1 200 OK\r\n") + b"Content-Encoding: " + token + b"\r\n" + fr + b"\r\n"
+            S = head + framed
+            if len(S) > 700:
+                continue
+            cfg = {"limits": (8190, 8190, 128), "limit": rng.choice([2**16, 64, 4]), "auto_decompress": True}
+            canon, found = explore("request" if is_req else "response", S, cfg, rec, f"compressed:{coding}", "singles", rng, "main")
+            rec.count("compressed-streams")
+            if i % 10 == 0:
+                rec.sample({"kind": "compressed", "coding": coding, "len": len(S), "canonical": canon[0][:2], "violations": list(found)})
     elif kind == "classes":
         # the smuggling mutation classes of the C01 corpus (every class at every position), all single cuts each
         brng = random.Random(spec["seed"] // 1)  # same bases for every shard of a run
